@@ -111,6 +111,7 @@ type harness struct {
 	checked        int
 	planChecked    int
 	lockstepSkips  int
+	lockstepRun    map[string]bool // the join-lockstep instances that are run in the current pass
 
 	corpusChecked, corpusSkipErr, corpusSkipOrder, corpusSkipNondet int
 }
@@ -201,30 +202,45 @@ func kindsOf(ops []string) string {
 	return strings.Join(ks, ",")
 }
 
+// runner executes a case's program as analyzed or optimized.
+type runner struct {
+	kind string // "spec" (reader input, declared sort key) | "pool" (lake pool scan)
+	run  func(cs *caseJ, noOpt bool, timeout time.Duration) runResult
+	text func(cs *caseJ) string
+}
+
+func (h *harness) readerRunner() *runner {
+	return &runner{
+		kind: "spec",
+		run: func(cs *caseJ, noOpt bool, timeout time.Duration) runResult {
+			return runProgram(h.ctx, cs.program(), runOpts{NoOptimize: noOpt, SortKey: cs.Sk, Timeout: timeout}, cs.inputZSON())
+		},
+		text: func(cs *caseJ) string { return cs.program() },
+	}
+}
+
 // evalCase runs one TLC-exported case on the real code.
-func (h *harness) evalCase(cs *caseJ, batch int) {
+func (h *harness) evalCase(r *runner, cs *caseJ, batch int) {
 	c := h.c
-	prog, in := cs.program(), cs.inputZSON()
+	prog, in := r.text(cs), cs.inputZSON()
 	oTimeout := caseTimeout
 	if hasTaint(cs, "join-lockstep") {
 		// Known defect: the optimized plan can hang (the join reads a side whose sort
 		// was skipped while the fork feeding both sides waits for the other one).
-		// Reproduce it a few times per run; do not pay a timeout for every instance.
-		h.mu.Lock()
-		skip := h.taintObserved["join-lockstep"] >= 4
-		if skip {
+		// Reproduce it on a fixed handful of instances per pass; do not pay a
+		// timeout for every instance.
+		if !h.lockstepRun[cs.key()] {
+			h.mu.Lock()
 			h.lockstepSkips++
-		}
-		h.mu.Unlock()
-		if skip {
+			h.mu.Unlock()
 			return
 		}
 		oTimeout = 3 * time.Second
 	}
-	U := runProgram(h.ctx, prog, runOpts{NoOptimize: true, SortKey: cs.Sk, Timeout: caseTimeout}, in)
-	O := runProgram(h.ctx, prog, runOpts{SortKey: cs.Sk, Timeout: oTimeout}, in)
+	U := r.run(cs, true, caseTimeout)
+	O := r.run(cs, false, oTimeout)
 	nontrivial := U.Canon != O.Canon
-	c.Eval(fmt.Sprintf("%d|%s", batch, cs.key()), nontrivial)
+	c.Eval(fmt.Sprintf("%s|%d|%s", r.kind, batch, cs.key()), nontrivial)
 	h.mu.Lock()
 	for _, r := range cs.Rules {
 		h.ruleSeen[r]++
@@ -235,7 +251,7 @@ func (h *harness) evalCase(cs *caseJ, batch int) {
 		}
 	}
 	h.mu.Unlock()
-	w := witness{Kind: "spec", Program: prog, Input: in, Sk: cs.Sk, Batch: batch, U: U.Rows, O: O.Rows,
+	w := witness{Kind: r.kind, Program: prog, Input: in, Sk: cs.Sk, Batch: batch, U: U.Rows, O: O.Rows,
 		UErr: errStr(U.Err), OErr: errStr(O.Err), PlanU: U.Canon, PlanO: O.Canon, Taint: cs.Taint}
 	if isTimeout(U.Err) {
 		c.Inconclusive("`%s` did not finish as analyzed within %s", prog, caseTimeout)
@@ -255,7 +271,7 @@ func (h *harness) evalCase(cs *caseJ, batch int) {
 			return
 		}
 		// not a known hang: make sure it is not just a slow machine
-		O = runProgram(h.ctx, prog, runOpts{SortKey: cs.Sk, Timeout: confirmTimeout}, in)
+		O = r.run(cs, false, confirmTimeout)
 		if isTimeout(O.Err) {
 			c.Violate("optimized-plan-hangs:"+kindsOf(cs.Ops), fmt.Sprintf("`%s` (declared sort key %q, %d-value batches) terminates as analyzed but the optimized plan does not finish within %s: %s", prog, cs.Sk, batch, confirmTimeout, O.Canon), w)
 			return
@@ -267,7 +283,7 @@ func (h *harness) evalCase(cs *caseJ, batch int) {
 		return
 	}
 	// (1) bind the rule transcription: the real optimized plan vs the spec's rewritten plan
-	if batch == 100 {
+	if batch == 100 && r.kind == "spec" {
 		h.mu.Lock()
 		h.planChecked++
 		h.mu.Unlock()
@@ -344,8 +360,14 @@ func (h *harness) evalCase(cs *caseJ, batch int) {
 		prog, cs.Sk, cs.Input, short(U.Rows), short(O.Rows), why, O.Canon), w)
 }
 
-func (h *harness) evalAll(cases []caseJ, batch int) {
+func (h *harness) evalAll(r *runner, cases []caseJ, batch int) {
 	zbuf.PullerBatchValues = batch
+	h.lockstepRun = map[string]bool{}
+	for i := range cases { // cases are sorted by key: a deterministic choice
+		if hasTaint(&cases[i], "join-lockstep") && len(cases[i].Input) >= 3 && len(h.lockstepRun) < 6 {
+			h.lockstepRun[cases[i].key()] = true
+		}
+	}
 	var wg sync.WaitGroup
 	ch := make(chan *caseJ, 256)
 	for i := 0; i < 12; i++ {
@@ -353,7 +375,7 @@ func (h *harness) evalAll(cases []caseJ, batch int) {
 		go func() {
 			defer wg.Done()
 			for cs := range ch {
-				h.evalCase(cs, batch)
+				h.evalCase(r, cs, batch)
 			}
 		}()
 	}
@@ -421,38 +443,51 @@ func run(c *core.Ctx) error {
 		simCfg, simNum = "Rewrite.simthorough.cfg", 2500
 	}
 	t0 := time.Now()
-	var res, sim *core.TLCResult
-	var wg sync.WaitGroup
-	wg.Add(2)
-	go func() {
-		defer wg.Done()
-		res = c.MustHold(core.TLCRun{Module: "Rewrite", Cfg: cfg, Workers: 12, Timeout: 18 * time.Minute})
-	}()
-	go func() {
-		defer wg.Done()
-		sim = c.MustHold(core.TLCRun{Module: "Rewrite", Cfg: simCfg, Simulate: fmt.Sprintf("num=%d", simNum), Depth: simDepth, Seed: c.Seed, Workers: 1, Timeout: 18 * time.Minute})
-	}()
-	wg.Wait()
-	if res == nil || sim == nil {
-		return nil
+	var cases []caseJ
+	cache := os.Getenv("C07_CASE_CACHE") // development aid: reuse the TLC export of a previous run
+	if b, err := os.ReadFile(cache); cache != "" && err == nil && json.Unmarshal(b, &cases) == nil && len(cases) > 0 {
+		c.Logf("DEVELOPMENT: %d cases loaded from %s, TLC not run", len(cases), cache)
+		c.Note("cases loaded from a cache file; TLC was not run in this invocation")
+	} else {
+		var res, sim *core.TLCResult
+		var wg sync.WaitGroup
+		wg.Add(2)
+		go func() {
+			defer wg.Done()
+			res = c.MustHold(core.TLCRun{Module: "Rewrite", Cfg: cfg, Workers: 12, Timeout: 18 * time.Minute})
+		}()
+		go func() {
+			defer wg.Done()
+			sim = c.MustHold(core.TLCRun{Module: "Rewrite", Cfg: simCfg, Simulate: fmt.Sprintf("num=%d", simNum), Depth: simDepth, Seed: c.Seed, Workers: 1, Timeout: 18 * time.Minute})
+		}()
+		wg.Wait()
+		if res == nil || sim == nil {
+			return nil
+		}
+		var err error
+		cases, err = parseCases(res)
+		if err != nil {
+			return err
+		}
+		nEx := len(cases)
+		sc, err := parseCases(sim)
+		if err != nil {
+			return err
+		}
+		c.Logf("TLC: exhaustive %d states (Check holds), %d cases exported; simulation %d states visited (%.1fs)", res.Distinct, nEx, len(sc), time.Since(t0).Seconds())
+		if nEx == 0 || len(sc) == 0 {
+			c.Inconclusive("TLC exported no case (exhaustive %d, simulation %d)", nEx, len(sc))
+		}
+		res.Out, res.Prints, sim.Out, sim.Prints = "", nil, "", nil
+		cases = dedupe(append(cases, sc...))
+		c.Set("exhaustive_cases", nEx)
+		c.Set("simulated_states", len(sc))
+		if cache != "" {
+			if b, err := json.Marshal(cases); err == nil {
+				os.WriteFile(cache, b, 0o644)
+			}
+		}
 	}
-	cases, err := parseCases(res)
-	if err != nil {
-		return err
-	}
-	nEx := len(cases)
-	sc, err := parseCases(sim)
-	if err != nil {
-		return err
-	}
-	c.Logf("TLC: exhaustive %d states (Check holds), %d cases exported; simulation %d states visited (%.1fs)", res.Distinct, nEx, len(sc), time.Since(t0).Seconds())
-	if nEx == 0 || len(sc) == 0 {
-		c.Inconclusive("TLC exported no case (exhaustive %d, simulation %d)", nEx, len(sc))
-	}
-	res.Out, res.Prints, sim.Out, sim.Prints = "", nil, "", nil
-	cases = dedupe(append(cases, sc...))
-	c.Set("exhaustive_cases", nEx)
-	c.Set("simulated_states", len(sc))
 	c.Set("cases", len(cases))
 
 	// ---- replay on the real code
@@ -464,7 +499,7 @@ func run(c *core.Ctx) error {
 	// buffer per record in zbuf.NewPuller).
 	debug.SetGCPercent(400)
 	t0 = time.Now()
-	h.evalAll(cases, 100)
+	h.evalAll(h.readerRunner(), cases, 100)
 	c.Logf("replayed %d cases with 100-value batches (%.1fs): %d verdicts, %d undetermined, %d violations", len(cases), time.Since(t0).Seconds(), h.checked, h.undetermined, c.Violations())
 	t0 = time.Now()
 	var second []caseJ
@@ -484,7 +519,7 @@ func run(c *core.Ctx) error {
 			second = append(second, *cs)
 		}
 	}
-	h.evalAll(second, 1)
+	h.evalAll(h.readerRunner(), second, 1)
 	c.Logf("replayed %d cases with 1-value batches (%.1fs)", len(second), time.Since(t0).Seconds())
 	c.Add("traces_validated_against_impl", int64(h.planChecked))
 	c.Set("verdicts", h.checked)
@@ -516,6 +551,10 @@ func run(c *core.Ctx) error {
 		c.Inconclusive("no case reached a verdict")
 	}
 
+	// ---- lake pool scans
+	if err := h.pools(cases); err != nil {
+		return err
+	}
 	// ---- the repository's own programs
 	if err := h.corpus(); err != nil {
 		return err
